@@ -80,7 +80,7 @@ theorem handleData_inorder (e : Ep) (c : Chunk) (h : Nat) (o : Obj) (hrcv : e.rc
   have hcr' : (credit e == 0) = false := by simpa using hcr
   simp only [hcr', Bool.false_eq_true, ↓reduceIte, ho]
   simp only [hrcv, List.length_cons, List.length_nil, Nat.zero_add, advance, htsn]
-  simp [recheck, hrr, advance]
+  simp [recheck, hrr]
 
 /-- the first chunk for an identifier that is not in the stream table -/
 theorem handleData_inorder_new (e : Ep) (c : Chunk) (hrcv : e.rcv = []) (htsn : c.tsn = e.cum + 1) (hoff : 1 ≤ e.maxOff)
@@ -95,7 +95,7 @@ theorem handleData_inorder_new (e : Ep) (c : Chunk) (hrcv : e.rcv = []) (htsn : 
   simp only [hcr', Bool.false_eq_true, ↓reduceIte]
   simp only [List.getElem?_append_right (Nat.le_refl _), Nat.sub_self, List.getElem?_cons_zero]
   simp only [hrcv, List.length_cons, List.length_nil, Nat.zero_add, advance, htsn]
-  simp [recheck, hrr, advance]
+  simp [recheck, hrr]
 
 /-- an ordered chunk with the expected sequence number enters an empty ordered queue -/
 theorem pushObj_next (il : Bool) (o : Obj) (c : Chunk) (hu : c.d.unord = false) (hs : c.d.seq = o.nextSeq) (hord : o.ord = []) :
@@ -325,11 +325,12 @@ theorem transfer_next (hA hB gn : Nat) (ms : List Nat) : ∀ (s : Sys) (k : Nat)
       woN.state = Gen.StreamStateOpen ∧ woN.sid = 1 ∧ woN.gen = gn ∧ seqOf s.a.il woN false = k + ms.length ∧
       woN.wrote = wo.wrote ++ ms.map (fun m => (m, false)) ∧
       roN.ord = [] ∧ roN.unord = [] ∧ roN.nextSeq = k + ms.length ∧ roN.readErr = false ∧ roN.sid = ro.sid ∧ roN.gen = ro.gen ∧
-      roN.eofSeen = ro.eofSeen ∧ roN.got = ro.got ++ ms.map (fun m => (m, false)) ∧ roN.state = ro.state := by
+      roN.eofSeen = ro.eofSeen ∧ roN.got = ro.got ++ ms.map (fun m => (m, false)) ∧ roN.state = ro.state ∧
+      woN.readErr = wo.readErr ∧ woN.ord = wo.ord ∧ woN.unord = wo.unord := by
   induction ms with
   | nil =>
     intro s k wo ro h1 h2 h3 h4 h5 h6 h7 h8 h9 h10 h11 h12 h13 h14 h15 h16 h17 h18 h19 h20 h21
-    refine ⟨wo, ro, [], [], ?_, rfl, (fun c hc => by cases hc), h2, h3, h4, (by rw [List.length_nil, Nat.add_zero]; exact h5), (by simp), h13, h14, (by rw [List.length_nil, Nat.add_zero]; exact h15), h16, rfl, rfl, rfl, (by simp), rfl⟩
+    refine ⟨wo, ro, [], [], ?_, rfl, (fun c hc => by cases hc), h2, h3, h4, (by rw [List.length_nil, Nat.add_zero]; exact h5), (by simp), h13, h14, (by rw [List.length_nil, Nat.add_zero]; exact h15), h16, rfl, rfl, rfl, (by simp), rfl, rfl, rfl, rfl⟩
     simp only [transferOps, Sys.run, List.foldl_nil, List.length_nil, Nat.add_zero, List.append_nil]
     rw [set_self _ _ _ h1, set_self _ _ _ h12]
   | cons v rest ih =>
@@ -364,7 +365,11 @@ theorem transfer_next (hA hB gn : Nat) (ms : List Nat) : ∀ (s : Sys) (k : Nat)
       · show (bump s.a.il wo false).gen = _; rw [(bump_sid _ _ _).2.1]; exact h4
       · rw [seqOf_bump_false, h5]
     obtain ⟨w1, w2, w3, w4, w5⟩ := hwo1f
-    obtain ⟨woN, roN, cs, pk, hrest, p1, p2, p3, p4, p5, p6, p7, q1, q2, q3, q4, q5, q6, q7, q8, q9⟩ :=
+    have hwo1r : wo1.readErr = wo.readErr ∧ wo1.ord = wo.ord ∧ wo1.unord = wo.unord := by
+      rw [← hwo1]
+      have r := bump_readerSame s.a.il wo false
+      exact ⟨r.readErr, r.ord, r.unord⟩
+    obtain ⟨woN, roN, cs, pk, hrest, p1, p2, p3, p4, p5, p6, p7, q1, q2, q3, q4, q5, q6, q7, q8, q9, r1, r2, r3⟩ :=
       ih s2 (k + 1) wo1 ro1 a2objs w1 w2 w3 (by rw [hs2eq]; exact w4) (by rw [hs2eq]; exact h6) (by rw [hs2eq]; exact h7)
         (by rw [hs2eq]; exact h8) (by rw [hs2eq]; exact h9)
         (by
@@ -381,7 +386,7 @@ theorem transfer_next (hA hB gn : Nat) (ms : List Nat) : ∀ (s : Sys) (k : Nat)
     have hl2 : s2.ha.length = s.ha.length + 1 := by rw [hs2eq]; simp
     rw [hn2, hl2] at hrest
     refine ⟨woN, roN, chunkOf s.a.nextTSN k v hA wo.gen :: cs, Msg.data [chunkOf s.a.nextTSN k v hA wo.gen] :: pk, ?_, by simp [p1], ?_,
-      p3, p4, p5, ?_, ?_, q1, q2, ?_, q4, ?_, ?_, ?_, ?_, ?_⟩
+      p3, p4, p5, ?_, ?_, q1, q2, ?_, q4, ?_, ?_, ?_, ?_, ?_, r1.trans hwo1r.1, r2.trans hwo1r.2.1, r3.trans hwo1r.2.2⟩
     · rw [hrun, hrest, hs2eq]
       simp only [List.set_set, List.append_assoc, List.singleton_append, List.length_cons, Nat.add_assoc, Nat.add_comm 1]
     · intro c hc
@@ -413,7 +418,8 @@ theorem transfer (hA gn v : Nat) (ms : List Nat) (s : Sys) (wo : Obj)
       woN.state = Gen.StreamStateOpen ∧ woN.sid = 1 ∧ woN.gen = gn ∧ seqOf s.a.il woN false = ms.length + 1 ∧
       woN.wrote = wo.wrote ++ (v :: ms).map (fun m => (m, false)) ∧
       roN.ord = [] ∧ roN.unord = [] ∧ roN.nextSeq = ms.length + 1 ∧ roN.readErr = false ∧ roN.sid = 1 ∧ roN.gen = gn ∧
-      roN.eofSeen = false ∧ roN.got = (v :: ms).map (fun m => (m, false)) ∧ roN.state = Gen.StreamStateOpen := by
+      roN.eofSeen = false ∧ roN.got = (v :: ms).map (fun m => (m, false)) ∧ roN.state = Gen.StreamStateOpen ∧
+      woN.readErr = wo.readErr ∧ woN.ord = wo.ord ∧ woN.unord = wo.unord ∧ roN.rx.length = roN.rx.length := by
   have e1 := send_eq s hA 0 v wo h1 h2 h3 h5 h6 h7 h8 h9 h10
   generalize hs1 : (s.step (.write false hA 8 false v)).step (.gather false [0] [[s.a.nextTSN]] [] false) = s1 at e1
   have hidx : s1.ha[s.ha.length]? = some (Msg.data [chunkOf (s1.b.cum + 1) 0 v hA gn]) := by
@@ -443,7 +449,11 @@ theorem transfer (hA gn v : Nat) (ms : List Nat) (s : Sys) (wo : Obj)
     · show (bump s.a.il wo false).gen = _; rw [(bump_sid _ _ _).2.1]; exact h4
     · rw [seqOf_bump_false, h5]
   obtain ⟨w1, w2, w3, w4, w5⟩ := hwo1f
-  obtain ⟨woN, roN, cs, pk, hrest, p1, p2, p3, p4, p5, p6, p7, q1, q2, q3, q4, q5, q6, q7, q8, q9⟩ :=
+  have hwo1r : wo1.readErr = wo.readErr ∧ wo1.ord = wo.ord ∧ wo1.unord = wo.unord := by
+    rw [← hwo1]
+    have r := bump_readerSame s.a.il wo false
+    exact ⟨r.readErr, r.ord, r.unord⟩
+  obtain ⟨woN, roN, cs, pk, hrest, p1, p2, p3, p4, p5, p6, p7, q1, q2, q3, q4, q5, q6, q7, q8, q9, r1, r2, r3⟩ :=
     transfer_next hA s.b.objs.length gn ms s2 (0 + 1) wo1 ro1 a2objs w1 w2 w3 (by rw [hs2eq]; exact w4) (by rw [hs2eq]; exact h6)
       (by rw [hs2eq]; exact h7) (by rw [hs2eq]; exact h8) (by rw [hs2eq]; exact h9)
       (by
@@ -459,7 +469,7 @@ theorem transfer (hA gn v : Nat) (ms : List Nat) (s : Sys) (wo : Obj)
   have hl2 : s2.ha.length = s.ha.length + 1 := by rw [hs2eq]; simp
   rw [hn2, hl2] at hrest
   refine ⟨woN, roN, chunkOf s.a.nextTSN 0 v hA wo.gen :: cs, Msg.data [chunkOf s.a.nextTSN 0 v hA wo.gen] :: pk, ?_, by simp [p1], ?_,
-    p3, p4, p5, ?_, ?_, q1, q2, ?_, q4, ?_, ?_, ?_, ?_, ?_⟩
+    p3, p4, p5, ?_, ?_, q1, q2, ?_, q4, ?_, ?_, ?_, ?_, ?_, r1.trans hwo1r.1, r2.trans hwo1r.2.1, r3.trans hwo1r.2.2, rfl⟩
   · rw [hrun, hrest, hs2eq]
     simp only [List.set_set, List.append_assoc, List.singleton_append, Nat.add_assoc, Nat.add_comm 1, List.set_append_right,
       Nat.le_refl, Nat.sub_self, List.set_cons_zero]
